@@ -224,6 +224,86 @@ func (h hdr) packet() *packet.Packet {
 	return p
 }
 
+// ---- large bodies ---------------------------------------------------------------------------
+// bigBody(kind, size, seed, codec, thr, enc): a text (kind 0) or byte (kind 1) body of `size`
+// bytes regenerated from the seed must read back verbatim through Body / BodyToString /
+// BodyToBytes, and (codec 1 / 2) arrive verbatim through the codec whenever the frame fits.
+// Returns 0 ok | 1 read-back differs | 3 wire form or the body after the wire differs, or a
+// frame that fits was refused.
+func lcgBytes(seed uint64, n int) []byte {
+	b := make([]byte, n)
+	x := seed*6364136223846793005 + 1442695040888963407
+	for i := range b {
+		x = x*6364136223846793005 + 1442695040888963407
+		b[i] = byte(x >> 56)
+	}
+	return b
+}
+
+func bigBody(kind, size int, seed uint64, cd, thr int, encb bool) int {
+	body := lcgBytes(seed, size)
+	p := packet.New(77, 9, 0, nil)
+	if kind == 0 {
+		p.SetBody(string(body))
+		if v, ok := p.Body().(string); !ok || v != string(body) {
+			return 1
+		}
+	} else {
+		p.SetBody(append([]byte{}, body...))
+		if v, ok := p.Body().([]byte); !ok || !bytes.Equal(v, body) {
+			return 1
+		}
+	}
+	if p.BodyToString() != string(body) {
+		return 1
+	}
+	if !bytes.Equal(p.BodyToBytes(), body) {
+		return 3
+	}
+	if cd == 0 {
+		return 0
+	}
+	var enc codec.Encoder
+	limit := codec.V1MaxPayloadBytes - codec.V1HeaderSize
+	if cd == 1 {
+		enc = codec.NewV1Encoder(thr)
+	} else {
+		enc = codec.NewV2Encoder(thr)
+		limit = codec.V2MaxPayloadBytes - codec.V2HeaderSize
+	}
+	var ec, dc cipher.BlockCryptor
+	if encb {
+		ec, dc = cipher.NewAESCFB(aesKey, aesIV), cipher.NewAESCFB(aesKey, aesIV)
+	}
+	// must cross: uncompressed frames that fit, compressed ones with 1 KiB to spare
+	must := size <= limit && (thr >= size || size+1024 <= limit)
+	var buf bytes.Buffer
+	q := packet.Make()
+	_, werr := enc.WritePacket(&buf, ec, p)
+	if werr != nil {
+		if must {
+			return 3
+		}
+		return 0
+	}
+	if err := enc.ReadPacket(&buf, dc, q); err != nil {
+		return 3
+	}
+	if size == 0 {
+		if q.Body() != nil {
+			return 3
+		}
+		return 0
+	}
+	if v, ok := q.Body().([]byte); !ok || !bytes.Equal(v, body) {
+		return 3
+	}
+	if !bytes.Equal(q.BodyToBytes(), body) || q.BodyToString() != string(body) {
+		return 3
+	}
+	return 0
+}
+
 // recording endpoint
 type recorder struct {
 	sent []fatchoy.IPacket
@@ -328,6 +408,50 @@ func run1(in Sx) Sx {
 			obs = append(obs, List(Int(1), hdrOfPkt(q2).sx(), bodySx(q2.Body())))
 		}
 		return ListOf(obs)
+	case 8:
+		// the same packet object encoded again after an encrypted encode (resend / broadcast)
+		mk := func(cd, thr int) codec.Encoder {
+			if cd == 1 {
+				return codec.NewV1Encoder(thr)
+			}
+			return codec.NewV2Encoder(thr)
+		}
+		cd, thr := in.At(1).AsInt(), in.At(2).AsInt()
+		p := hdrOf(in.At(3)).packet()
+		what := in.At(4)
+		if what.At(0).AsInt() == 0 {
+			p.SetErrno(int32(what.At(1).Int64()))
+		} else {
+			p.SetBody(goValue(what.At(1)))
+		}
+		w0 := append([]byte{}, p.BodyToBytes()...)
+		s0 := p.BodyToString()
+		through := func(cd int) Sx {
+			var buf bytes.Buffer
+			q := packet.Make()
+			ok := false
+			pn, _ := Catch(func() {
+				if _, err := mk(cd, thr).WritePacket(&buf, cipher.NewAESCFB(aesKey, aesIV), p); err != nil {
+					return
+				}
+				if err := mk(cd, thr).ReadPacket(&buf, cipher.NewAESCFB(aesKey, aesIV), q); err != nil {
+					return
+				}
+				ok = true
+			})
+			if pn || !ok {
+				return List(Int(0))
+			}
+			return List(Int(1), hdrOfPkt(q).sx(), bodySx(q.Body()), Int(int64(q.Errno())))
+		}
+		q1 := through(cd)
+		w1 := res(func() Sx { return Bytes(p.BodyToBytes()) })
+		s1 := res(func() Sx { return Str(p.BodyToString()) })
+		q2 := through(cd)
+		q3 := through(3 - cd)
+		return List(Int(1), Bytes(w0), Str(s0), w1, s1, q1, q2, q3)
+	case 7:
+		return List(Int(7), Int(int64(bigBody(in.At(1).AsInt(), in.At(2).AsInt(), in.At(3).Uint64(), in.At(4).AsInt(), in.At(5).AsInt(), in.At(6).AsBool()))))
 	case 4:
 		h := hdrOf(in.At(1))
 		p := h.packet()
@@ -670,6 +794,42 @@ func gen(a Args, out *Out) {
 			emit("wire-"+kindOf(g), List(Int(3), Int(int64(cd)), Int(int64(thr)), Bool(encb), h.sx(), List(Int(1), g)))
 		}
 	}
+	// every boundary error code through both codecs, with and without the cipher
+	for _, ecode := range []int64{0, 1, -1, 127, 128, 32767, 32768, math.MaxInt32 - 1, math.MaxInt32, math.MinInt32, math.MinInt32 + 1, 1002} {
+		for cd := 1; cd <= 2; cd++ {
+			for e := 0; e < 2; e++ {
+				h := genHdr(rng, true)
+				emit("wire-errno", List(Int(3), Int(int64(cd)), Int(int64(thresholds[rng.Intn(len(thresholds))])), Bool(e == 1), h.sx(), List(Int(0), Int(ecode))))
+			}
+		}
+	}
+	// scenario 8: the same packet object is encoded again after an encrypted encode (resend,
+	// broadcast to a second peer): numeric / nil / proto bodies and error codes are re-encoded
+	// each time, so every send must deliver the value and the sender's own views must not change
+	for i := 0; i < 150*scale; i++ {
+		h := genHdr(rng, true)
+		cd := 1 + rng.Intn(2)
+		thr := thresholds[rng.Intn(len(thresholds))]
+		var what Sx
+		kind := "resend-errno"
+		if rng.Chance(2, 5) {
+			what = List(Int(0), Int(genErrno(rng)))
+		} else {
+			var g Sx
+			for {
+				g = genGov(rng, out)
+				if rng.Chance(1, 6) {
+					g = genProto()
+				}
+				if t := g.At(0).AsInt(); t != 5 && t != 6 {
+					break
+				}
+			}
+			what = List(Int(1), g)
+			kind = "resend-" + kindOf(g)
+		}
+		emit(kind, List(Int(8), Int(int64(cd)), Int(int64(thr)), h.sx(), what))
+	}
 	// error-flagged packets whose payload is not a well-formed varint: what the receiver's
 	// binary.Varint makes of it (overflow, truncation, trailing bytes) must match the model
 	rep := func(b byte, n int, tail ...byte) []byte { return append(bytes.Repeat([]byte{b}, n), tail...) }
@@ -774,6 +934,30 @@ func gen(a Args, out *Out) {
 			}
 		})
 		emit("decode-"+kindOf(g), List(Int(5), Int(int64(1+rng.Intn(2))), h.sx(), g, Bool(registered), Bool(valid)))
+	}
+	// large text / byte bodies: sizes around every limit the code knows (255, 1 KiB, the
+	// compression thresholds, the V1 frame limit) and beyond, locally and through both codecs
+	sizes := []int{0, 1, 254, 255, 256, 257, 1023, 1024, 1025, 4095, 4096, 4097, 8191, 8192, 8193, 20000,
+		61425, 61426, 61427, 65535, 65536, 100000}
+	if a.Thorough() {
+		sizes = append(sizes, 1<<20, 8<<20-20, 8<<20)
+	}
+	for _, size := range sizes {
+		for kind := 0; kind < 2; kind++ {
+			for cd := 0; cd <= 2; cd++ {
+				thr := 1 << 30 // no compression
+				if rng.Bool() && size+1024 <= 61426 {
+					thr = rng.PickInt(1, 64, 4096, 8192)
+				}
+				in := List(Int(7), Int(int64(kind)), Int(int64(size)), Uint(rng.Next()), Int(int64(cd)), Int(int64(thr)), Bool(rng.Bool()))
+				obs := run(in)
+				out.GoChecked++
+				out.Count("big-body runs")
+				if size <= 1025 || (obs.Len() == 2 && obs.At(1).AsInt() != 0) || obs.Len() != 2 {
+					out.Case("big-body", true, in, obs)
+				}
+			}
+		}
 	}
 	// volume: the numeric wire/text forms and the error-code path evaluated directly in Go
 	nvol := 30000
